@@ -203,6 +203,7 @@ class Func:
         self.generic, self.ret, self.public, self.module, self.struct = generic, ret, public, module, struct
         self.tag = 0
         self.gstruct = False
+        self.extra_body = []         # further statements of the body (calls made inside the function)
         self.numeric_body = None     # name of a parameter of type T that the body adds 1 to: instantiable only for Zahl / Kommazahl
 
     def ptype(self, n):
@@ -425,11 +426,12 @@ def build_aliases(funcs, use_mod):
     """aliases in the order the parser declares them; duplicates (C20's coincidence) are dropped by the generator so
     that every program is free of alias errors. Returns (visible aliases in trie insertion order, all)"""
     order = [f for f in funcs if f.module == 'aus'] + [f for f in funcs if f.module == 'mod'] + [f for f in funcs if f.module == 'main']
-    seen = set()
+    seen_in = {'aus': set(), 'mod': set(), 'main': set()}     # alias keys visible in each module
     out = []
     aid = 0
     tag = 0
     for f in order:
+        seen = seen_in[f.module]
         tag += 1
         f.tag = tag
         kept = []
@@ -456,6 +458,8 @@ def build_aliases(funcs, use_mod):
                 aid += 1
                 a.aid = aid
                 seen.add(a.key())
+                if f.public and f.module != 'main':
+                    seen_in['main'].add(a.key())      # imported into main (aus is never re-declared by mod)
                 f.aliases.append(a)
                 out.append(a)
         f.raw_kept = kept
@@ -529,6 +533,8 @@ def render_func(f, backend):
     body = []
     if f.numeric_body:
         body.append("\t(%s plus 1)." % f.numeric_body)
+    for l in f.extra_body:
+        body.append("\t" + l)
     if backend:
         body.append('\tXAUST "%s(".' % f.name)
         for i, p in enumerate(sorted(ps)):
@@ -959,7 +965,7 @@ def ty_unjson(t):
 def prog_to_json(p):
     return dict(backend=getattr(p, 'backend', False), use_mod=p.use_mod, calls=p.calls,
                 funcs=[dict(name=f.name, params=[[q[0], ty_json(q[1]), q[2], q[3]] for q in f.params], aliases=list(getattr(f, 'raw_kept', f.raw_aliases)),
-                            generic=f.generic, ret=f.ret, public=f.public, module=f.module, struct=f.struct, numeric_body=f.numeric_body, gstruct=f.gstruct) for f in p.funcs])
+                            generic=f.generic, ret=f.ret, public=f.public, module=f.module, struct=f.struct, numeric_body=f.numeric_body, gstruct=f.gstruct, extra_body=f.extra_body) for f in p.funcs])
 
 
 def prog_from_json(j, idx):
@@ -971,11 +977,66 @@ def prog_from_json(j, idx):
     for f, jf in zip(p.funcs, j["funcs"]):
         f.numeric_body = jf.get("numeric_body")
         f.gstruct = bool(jf.get("gstruct"))
+        f.extra_body = list(jf.get("extra_body") or [])
     p.aliases = build_aliases(p.funcs, p.use_mod)
     p.has_struct = any(f.struct for f in p.funcs)
     p.calls = list(j["calls"])
     p.files, p.call_lines = render_program(p.funcs, p.use_mod, p.calls, p.backend)
     p.spec = Spec(visible(p.aliases), p.has_struct)
+    return p
+
+
+def make_instantiation_program(rng, idx):
+    """family 'resolution is stable across generic instantiations': module H (mod.ddp) declares generic functions and,
+    visible at their declaration, a function under the alias key K; the main module declares ITS OWN function under
+    the same key K (H's is private) and/or a longer alias of which K is a strict prefix, and uses K before and after
+    it instantiates H's generic functions (also nested, also failing instantiations). The aliases visible in the main
+    module never change through an instantiation."""
+    p = Prog()
+    p.idx, p.clean, p.backend = idx, False, False
+    w, w2, gw, gw2, gw3 = rng.sample(WORDS, 5)
+    kt = rng.choice([Z, T])
+    kform = {Z: ["5", "vz", "(vz plus 1)"], T: ['"s"', "vt"]}[kt]
+    kpat = rng.choice(["%s <z>" % w, "%s mit <z>" % w, "%s <z> %s" % (w, w2)])
+    ktext = lambda: kpat.replace("<z>", rng.choice(kform))
+    variant = rng.choice(["same", "same", "prefix", "both", "public"])
+    funcs = []
+    hk = Func("hwert", [('z', kt, False, None)], [kpat], module='mod', public=(variant == "public"))
+    funcs.append(hk)
+    g1 = Func("hgen", [('a', G('T'), False, None)], ["%s <a>" % gw], generic=True, module='mod', public=True)
+    if rng.random() < 0.6:
+        g1.extra_body = ["(%s)." % kpat.replace("<z>", kform[0])]       # the body uses H's own K
+    funcs.append(g1)
+    g2 = Func("hgen2", [('a', G('T'), False, None)], ["%s <a>" % gw2], generic=True, module='mod', public=True)
+    g2.extra_body = ["(%s a)." % gw]                                        # nested instantiation of hgen
+    funcs.append(g2)
+    g3 = Func("hnum", [('a', G('T'), False, None)], ["%s <a>" % gw3], generic=True, module='mod', public=True)
+    g3.numeric_body = 'a'                                                    # instantiable for numbers only
+    funcs.append(g3)
+    if variant in ("same", "both"):
+        funcs.append(Func("mwert", [('z', kt, False, None)], [kpat]))
+    if variant in ("prefix", "both", "public"):
+        funcs.append(Func("mlang", [('z', kt, False, None)], [kpat + " " + rng.choice(["lang", "mit nim"])]))
+    funcs.append(Func("mfix", [], ["%s fest" % w]))
+    p.use_mod = True
+    p.funcs = funcs
+    p.aliases = build_aliases(funcs, True)
+    p.has_struct = False
+    longer = [a.text for a in p.aliases if a.fn.name == "mlang"]
+    insts = ["%s 2" % gw, '%s "s"' % gw, "%s vk" % gw2, "%s vzl" % gw, "%s 7" % gw3, '%s "t"' % gw3, "%s vt" % gw2, "%s 1,5" % gw3]
+    calls = [ktext()]
+    if longer:
+        calls.append(longer[0].replace("<z>", rng.choice(kform)))
+    for _ in range(rng.randint(3, 6)):
+        calls.append(rng.choice(insts))
+        calls.append(ktext())
+        if longer and rng.random() < 0.6:
+            calls.append(longer[0].replace("<z>", rng.choice(kform)))
+        if rng.random() < 0.3:
+            calls.append("%s fest" % w)
+    p.calls = calls
+    p.files, p.call_lines = render_program(funcs, True, p.calls, False)
+    p.spec = Spec(visible(p.aliases), False)
     return p
 
 
@@ -1387,7 +1448,11 @@ def judge_site(ck, p, k, i, gtoks, stoks, impl_call, m, errs_on_line, stats):
                 key = "resolve call-extent fn=%s" % iid[0][0]
                 flagv(ck, p, k, key, "%s: %s was called through %s but the call ends at token %d" % (site, iid[0][0], describe(kind[1]), iid[3]), replay_of(p, k, dict(token=i), key=key))
             else:
-                flagv(ck, p, k, "resolve unknown-target", "%s: called %s (negated=%s) with arguments %s, not an alias that matches here" % (site, iid[0], iid[1], sorted(iid[2])), replay_of(p, k, dict(token=i), key="resolve unknown-target"))
+                hidden = [f for f in p.funcs if fn_key(f) == iid[0] and f.module != 'main' and not f.public]
+                if hidden:
+                    flagv(ck, p, k, "resolve invisible-function-called", "%s: called %s of module %s, which is not public and was never imported here (aliases visible in a module must not change, e.g. through a generic instantiation)" % (site, iid[0][0], iid[0][1]), replay_of(p, k, dict(token=i)))
+                else:
+                    flagv(ck, p, k, "resolve unknown-target", "%s: called %s (negated=%s) with arguments %s, not an alias that matches here" % (site, iid[0], iid[1], sorted(iid[2])), replay_of(p, k, dict(token=i), key="resolve unknown-target"))
         elif chosen not in r['typed'] and errs_on_line and typed_if_undeclared_is_void(p, chosen, sub, i):
             stats['undeclared_argument_rejected'] = stats.get('undeclared_argument_rejected', 0) + 1
         elif chosen not in r['typed']:
@@ -2172,6 +2237,11 @@ def main():
         _, cstats = alias_leg(ck, b, tt, callx, model, root, corpus)
         ck.cov["corpus"] = dict(entries=len(corpus), sites=cstats['sites'])
     nprog, ncalls = (110, 20) if ck.quick else (1500, 20)
+    inst_progs = [make_instantiation_program(ck.rng, 200000 + i) for i in range(16 if ck.quick else 200)]
+    _, istats = alias_leg(ck, b, tt, callx, model, root, inst_progs)
+    ck.cov["instantiation_stability_leg"] = dict(programs=istats['programs'], sites=istats['sites'], typed=istats['typed'], no_alias=istats['nomatch'],
+                                                 no_type_match=istats['untyped'], generic_selected=istats['generic_selected'], harness_errors=istats['harness_errors'],
+                                                 declaration_errors=istats.get('programs_with_declaration_errors', 0))
     progs, stats = alias_leg(ck, b, tt, callx, model, root, gen_programs(ck, nprog, ncalls, False))
     log("[c09] alias leg %.1fs" % (vlib.time.time() - t0))
     ck.cov["alias_leg"] = stats
